@@ -871,10 +871,9 @@ impl Arena {
 
     let header = self.header_mut();
     let allocated = header.allocated;
-    let aligned_offset = align_offset::<T>(allocated);
     let size = mem::size_of::<T>() as u32;
-    let want = aligned_offset
-      .checked_add(size)
+    let want = checked_align_offset::<T>(allocated)
+      .and_then(|aligned_offset| aligned_offset.checked_add(size))
       .and_then(|w| w.checked_add(extra));
 
     if let Some(want) = want.filter(|w| *w <= self.cap) {
@@ -989,11 +988,10 @@ impl Arena {
 
     let header = self.header_mut();
     let allocated = header.allocated;
-    let align_offset = align_offset::<T>(allocated);
     let size = t_size as u32;
-    let want = align_offset + size;
+    let want = checked_align_offset::<T>(allocated).and_then(|offset| offset.checked_add(size));
 
-    if want <= self.cap {
+    if let Some(want) = want.filter(|w| *w <= self.cap) {
       let offset = header.allocated;
       header.allocated = want;
       let mut allocated = Meta::new(self.ptr as _, offset, want - offset);
@@ -1013,7 +1011,7 @@ impl Arena {
     // allocate through slow path
     match self.freelist {
       Freelist::None => Err(Error::InsufficientSpace {
-        requested: want,
+        requested: size,
         available: self.remaining() as u32,
       }),
       Freelist::Optimistic => match self.alloc_slow_path_optimistic(Self::pad::<T>() as u32) {
@@ -1263,8 +1261,11 @@ impl Arena {
       return false;
     }
 
-    let aligned_offset = align_offset::<u64>(offset) as usize;
-    let padding = aligned_offset - offset as usize;
+    // no room for a node behind an offset in the last bytes of a 4 GiB arena
+    let Some(aligned_offset) = checked_align_offset::<u64>(offset) else {
+      return false;
+    };
+    let padding = aligned_offset as usize - offset as usize;
     let segmented_node_size = padding + SEGMENT_NODE_SIZE;
     if segmented_node_size >= size as usize {
       return false;
@@ -1284,7 +1285,12 @@ impl Arena {
       return None;
     }
 
-    let aligned_offset = align_offset::<u64>(offset) as usize;
+    // no room for a node behind an offset in the last bytes of a 4 GiB arena
+    let Some(aligned_offset) = checked_align_offset::<u64>(offset) else {
+      self.increase_discarded(size);
+      return None;
+    };
+    let aligned_offset = aligned_offset as usize;
     let padding = aligned_offset - offset as usize;
     let segmented_node_size = padding + SEGMENT_NODE_SIZE;
     if segmented_node_size >= size as usize {
